@@ -27,6 +27,8 @@ fn main() {
         "c05" => drivers::c05::drive(&rest),
         "c06" => drivers::c06::drive(&rest),
         "c07" => drivers::c07::drive(&rest),
+        "c08" => drivers::c08::drive(&rest),
+        "c08worker" => drivers::c08::worker(&rest),
         "c09" => drivers::c09::drive(&rest),
         "c11" => drivers::c11::drive(&rest),
         "c13" => drivers::c13::drive(&rest),
